@@ -157,7 +157,14 @@ func init() {
 			if g.Bool("byDir") {
 				p = g.Pick(IgnoreDirs, "ignDir") + "/" + g.Pick([]string{"o", "sub/o", "x.go"}, "leaf")
 			} else {
-				p = g.Pick([]string{"out", "x", "a b"}, "stem") + g.Pick(IgnoreExts, "ext")
+				ext := g.Pick(IgnoreExts, "ext")
+				stems := []string{"out", "x", "a b"}
+				if strings.Contains(g.E.Cur.Work.Files[".goitignore"], "*"+ext+"\n") {
+					// a line break in the name, only while the extension IS excluded (a listed name with a line break
+					// could not be told apart in the line-oriented report)
+					stems = append(stems, "a\nb", "\nlead")
+				}
+				p = g.Pick(stems, "stem") + ext
 			}
 			if dir != "" {
 				p = dir + "/" + p
